@@ -36,3 +36,49 @@ Proof.
   - apply (exec_reach enc_index dec_index dec_enc_index w_hash 1 [] w_add1). constructor.
   - vm_compute. discriminate.
 Qed.
+
+(** * C10, open finding K-C10-id-reissued-after-restart *)
+From IV Require Import Proofs.FileDiskDurable.
+
+(** The FULL statement of "removed messages stay gone" as seen by a holder of the id: after a
+    successful removal the id never names a message of that mailbox again, whatever follows.
+    It does not hold: the id generator (wall-clock second + a counter that restarts with the process)
+    may issue the id of a message that is gone once more — [removed_stay_gone_refuted]. What does hold is
+    [FileDiskDurable.removed_stay_gone] (Props/C10/removed_stay_gone_partial), under the guard
+    [never_reissued]. *)
+Definition removed_stay_gone_stmt : Prop :=
+  forall (enc : index -> str) (dec : str -> option index), (forall i, dec (enc i) = Some i) ->
+  forall (hash : str -> str) (cap : nat) (d : disk) (mb id : str) (its : list item),
+    reach enc dec hash cap d ->
+    ~ In id (view_ids dec (run_items enc dec hash cap (exec enc dec hash cap (Remove mb id) d) its) (hash mb)).
+
+(** the delivery after the restart: the generator's first candidate is the id of the removed message *)
+Definition w_add_again : op := FileDisk.Add w_mb [50] [104; 111] [[105; 49]].
+
+Theorem removed_stay_gone_refuted :
+  exists (enc : index -> str) (dec : str -> option index) (hash : str -> str) (cap : nat) (d : disk)
+         (mb id : str) (its : list item),
+    (forall i, dec (enc i) = Some i) /\ reach enc dec hash cap d /\
+    In id (view_ids dec d (hash mb)) /\
+    result_of dec hash cap (Remove mb id) d = ROk /\
+    ~ In id (view_ids dec (exec enc dec hash cap (Remove mb id) d) (hash mb)) /\
+    let d2 := run_items enc dec hash cap (exec enc dec hash cap (Remove mb id) d) its in
+    In id (view_ids dec d2 (hash mb)) /\
+    (* and it names a different message: other metadata, other content *)
+    view dec d2 (hash mb) <> view dec d (hash mb).
+Proof.
+  exists enc_index, dec_index, w_hash, 1%nat, w_d0, w_mb, [105; 49], [IReopen; IOp w_add_again].
+  split; [exact dec_enc_index|]. split.
+  - apply (exec_reach enc_index dec_index dec_enc_index w_hash 1 [] w_add1). constructor.
+  - split; [vm_compute; auto|]. split; [vm_compute; reflexivity|]. split; [vm_compute; tauto|].
+    split; [vm_compute; auto | vm_compute; discriminate].
+Qed.
+
+Theorem removed_stay_gone_stmt_false : ~ removed_stay_gone_stmt.
+Proof.
+  intros H.
+  assert (Hr : reach enc_index dec_index w_hash 1 w_d0).
+  { apply (exec_reach enc_index dec_index dec_enc_index w_hash 1 [] w_add1). constructor. }
+  apply (H enc_index dec_index dec_enc_index w_hash 1%nat w_d0 w_mb [105; 49] [IReopen; IOp w_add_again] Hr).
+  vm_compute. auto.
+Qed.
